@@ -52,17 +52,21 @@ def _dirichlet(rng, weights):
     return [v / s for v in x]
 
 
-def random_profile(rng, depth, chems=(), current='random', background='random', wa=False):
-    """profile spec: temperature / salinity shapes, current nodes, background concentrations"""
+def random_profile(rng, depth, chems=(), current='random', background='random', wa=False, strat='random'):
+    """profile spec: temperature / salinity shapes, current nodes, background concentrations.
+    strat: 'normal' (thermocline, plumes usually trap) | 'weak' (nearly uniform, plumes may surface)"""
     H = depth + rng.uniform(50., 400.)
+    if strat == 'random':
+        strat = 'weak' if rng.random() < 0.25 else 'normal'
+    Tbot = rng.uniform(275., 280.)
     spec = {
         'H': H,
         'n': rng.choice([12, 25, 40]),
-        'Tsurf': rng.uniform(283., 301.),
-        'Tbot': rng.uniform(275., 280.),
+        'Tsurf': (Tbot + rng.uniform(0., 0.3)) if strat == 'weak' else rng.uniform(283., 301.),
+        'Tbot': Tbot,
         'zT': rng.uniform(80., 500.),
         'S0': rng.uniform(33.5, 35.5),
-        'dS': rng.uniform(0., 1.5),
+        'dS': rng.uniform(0., 0.02) if strat == 'weak' else rng.uniform(0., 1.5),
         'zS': rng.uniform(100., 800.),
     }
     if current == 'random':
@@ -203,7 +207,7 @@ def random_release(rng, depth, multiphase_only=None, ntracers=None):
 
 
 def random_scenario(rng, nparticles=None, depth=None, mix='random', biodeg=None, background='random',
-                    current='random', lag_time=None, multiphase_only=None, wa=None):
+                    current='random', lag_time=None, multiphase_only=None, wa=None, strat='random'):
     """one scenario covering the quantifiers of C03/C04"""
     if depth is None:
         depth = rng.uniform(100., 2500.)
@@ -224,7 +228,7 @@ def random_scenario(rng, nparticles=None, depth=None, mix='random', biodeg=None,
     rel = random_release(rng, depth, multiphase_only=multiphase_only)
     # a tracer may coincide with an ambient variable; give some tracers an ambient background too
     prof = random_profile(rng, depth, chems=chems + [t for t in rel['tracers'] if rng.random() < 0.5],
-                          current=current, background=background, wa=wa)
+                          current=current, background=background, wa=wa, strat=strat)
     return {'depth': depth, 'profile': prof, 'release': rel, 'particles': pspecs}
 
 
